@@ -1,12 +1,18 @@
 #!/bin/bash
 # usage: tools/try_seed.sh <seed-dir> <check-id> [tier]
-# Applies <seed-dir>/patch.diff to /repo, runs the check, reverts.
-d=$1; id=$2; tier=${3:-quick}
-cd /repo || exit 2
-if ! git diff --quiet; then echo "repo dirty; refusing"; exit 2; fi
-git apply "$d/patch.diff" || { echo "PATCH DOES NOT APPLY"; exit 2; }
+# Applies <seed-dir>/patch.diff to a scratch worktree of /repo's HEAD (never to
+# /repo itself: background runs use /repo), runs the check against it through
+# VERIF_REPO, removes the worktree.
+d=$(cd "$1" && pwd); id=$2; tier=${3:-quick}
+name=$(basename $d)
+wt=/tmp/ts_$name
+git -C /repo worktree remove --force $wt 2>/dev/null
+git -C /repo worktree add -q --detach $wt HEAD || exit 2
+# uncommitted fixes under development in /repo are carried over
+git -C /repo diff | git -C $wt apply 2>/dev/null
+git -C $wt apply "$d/patch.diff" || { echo "PATCH DOES NOT APPLY"; git -C /repo worktree remove --force $wt; exit 2; }
 cd /verif
-VERIF_NOSHRINK=${VERIF_NOSHRINK:-1} ./check "$id" --tier "$tier" 2>&1 | grep -v "^HARNESS-ERROR: shard" | tail -${TAIL:-4}
+VERIF_REPO=$wt VERIF_NOSHRINK=${VERIF_NOSHRINK:-1} ./check "$id" --tier "$tier" 2>&1 | grep -v "^HARNESS-ERROR: shard" | tail -${TAIL:-4}
 rc=${PIPESTATUS[0]}
-git -C /repo checkout -- . ; git -C /repo clean -fdq -- pytype 2>/dev/null
-echo "seed $(basename $d) on $id/$tier: rc=$rc"
+git -C /repo worktree remove --force $wt
+echo "seed $name on $id/$tier: rc=$rc"
